@@ -14,6 +14,16 @@ typedef uint32_t cffi_char32_t;
 static PyObject *
 _my_PyUnicode_FromChar32(const cffi_char32_t *w, Py_ssize_t size)
 {
+    /* PyUnicode_FromKindAndData() does not check the code points */
+    Py_ssize_t i;
+    for (i = 0; i < size; i++) {
+        if (w[i] > 0x10FFFF) {
+            PyErr_Format(PyExc_ValueError,
+                         "char32_t out of range for "
+                         "conversion to unicode: 0x%x", (int)w[i]);
+            return NULL;
+        }
+    }
     return PyUnicode_FromKindAndData(PyUnicode_4BYTE_KIND, w, size);
 }
 
